@@ -15,7 +15,11 @@ import numpy as np
 
 
 class TapeMismatch(BaseException):
-    """The code asked for a draw the script does not provide (BaseException: not caught by the library)."""
+    """The code asked for a draw the script does not provide (BaseException: not caught by the library).
+    reason: "range" (same kind of draw, other range - e.g. a row drawn from a part of the storage only),
+            "kind" (another primitive: the behaviour cannot be followed, which is not by itself a violation),
+            "exhausted" (the code wants more draws than the behaviour has)"""
+    reason = "kind"
 
 
 class TapeExhausted(TapeMismatch):
@@ -24,6 +28,7 @@ class TapeExhausted(TapeMismatch):
     def __init__(self, kind, rng, api, weights=None):
         super().__init__("script exhausted: code asked for %s(%s) via %s" % (kind, rng, api))
         self.kind, self.range, self.api, self.weights = kind, rng, api, weights
+        self.reason = "exhausted"
 
 
 class Boom(Exception):
@@ -91,8 +96,13 @@ class Tape:
         if not self.script:
             raise TapeExhausted(kind, rng, api, weights)
         k, r, v = self.script.pop(0)
-        if k != kind or (r is not None and rng is not None and r != rng):
-            raise TapeMismatch("script has %s(%s), code asked for %s(%s) via %s" % (k, r, kind, rng, api))
+        same_range = True
+        if r is not None and rng is not None:
+            same_range = (tuple(r) == tuple(rng)) if isinstance(rng, (tuple, list)) else (r == rng)
+        if k != kind or not same_range:
+            e = TapeMismatch("script has %s(%s), code asked for %s(%s) via %s" % (k, r, kind, rng, api))
+            e.reason = "range" if k == kind else "kind"
+            raise e
         return v
 
     def _uniform(self, m, api, orig):
@@ -151,6 +161,9 @@ class Tape:
 
     def _choices(self, population, weights=None, *, cum_weights=None, k=1):
         out = []
+        if weights is None and cum_weights is None:
+            return [population[self._uniform(len(population), "random.choices",
+                                             lambda: self._orig[("py", "randrange")](len(population)))] for _ in range(k)]
         for _ in range(k):
             if self.mode == "script":
                 w = list(weights) if weights is not None else None
@@ -171,9 +184,19 @@ class Tape:
             x[i] = it
 
     def _sample(self, population, k, **kw):
+        """k distinct items in random order: an ordered selection without replacement ("sample", (m, k))"""
         population = list(population)
-        idx = self._perm(len(population), "random.sample")
-        return [population[i] for i in idx[:k]]
+        m = len(population)
+        if k > m or k < 0:
+            raise ValueError("Sample larger than population or is negative")
+        if k == 1:
+            return [population[self._uniform(m, "random.sample", lambda: self._orig[("py", "randrange")](m))]]
+        if self.mode == "script":
+            idx = list(self._next("sample", (m, k), "random.sample"))
+        else:
+            idx = self._orig[("py", "sample")](range(m), k)
+        self._emit("sample", [m, k], list(idx), "random.sample")
+        return [population[i] for i in idx]
 
     def _getrandbits(self, k):
         return self._uniform(1 << k, "random.getrandbits", lambda: self._orig[("py", "getrandbits")](k))
